@@ -2,11 +2,11 @@
 import os
 import random
 
-from . import streams_metric, cli, meshgen, pyio
+from . import streams_metric, streams_smoothinterp, cli, meshgen, pyio
 from .common import Stream
 
 ID = 'C05'
-PROPS_MODULE = ['Refine.Props.C05']
+PROPS_MODULE = ['Refine.Props.C05', 'Refine.Props.C05Smooth']
 
 
 # ---- regression for the defect repaired in /repo e210980 (known_findings: ref_metric_interpolate:tri-face-id-as-fourth-vertex):
@@ -93,7 +93,8 @@ ADAPT_LOGLIN = Stream('cli_adapt_loglin', cli.cli_harness, None, gen_adapt_logli
 ADAPT_LOGLIN_MPI = Stream('cli_adapt_loglin_mpi', cli.cli_harness, None, gen_adapt_loglin, oracle=oracle_adapt_loglin,
                           kind='oracle', np=[2, 4], nontrivial=lambda op, out: out.startswith('rc=0'), timeout=1800)
 
-STREAMS = [streams_metric.INTERP_KERNEL, streams_metric.INTERP_GRID, cli.ADAPT_METRIC, ADAPT_BIGID_MPI, ADAPT_LOGLIN, ADAPT_LOGLIN_MPI]
+STREAMS = [streams_metric.INTERP_KERNEL, streams_metric.INTERP_GRID, cli.ADAPT_METRIC, ADAPT_BIGID_MPI, ADAPT_LOGLIN, ADAPT_LOGLIN_MPI] + \
+          list(streams_smoothinterp.STREAMS)
 
 EXPLANATION = (
     'Proved in Lean over the reals, about the executable model (Refine/Model/Metric.lean: interpolateNode = '
@@ -131,7 +132,37 @@ EXPLANATION = (
     'every output vertex after splits, collapses, swaps and smoothing) and `refmpi adapt` on 2 and 3 ranks on 2-D meshes '
     'whose triangle ids exceed the vertex count (cli_adapt_metric_2d_bigid_mpi: regression for the defect found by this '
     'package and repaired in /repo e210980 — ref_metric_interpolate read the face id of a 2-D donor triangle as a fourth '
-    'donor vertex: out-of-bounds read, SIGSEGV for id 1000000).')
+    'donor vertex: out-of-bounds read, SIGSEGV for id 1000000). '
+    'Work package smoothinterp (Refine.Props.C05Smooth, model Refine/Model/SmoothInterp.lean): the BOOKKEEPING that connects the '
+    'kernel to the moving vertex - ref_interp_locate_node (skip on cell = REF_EMPTY, forget on off-part donor as repaired in '
+    '2d4e510, walk, serial sequential fall-back, REF_NOT_FOUND), ref_interp_locate_between (two walks, fall-back recording '
+    'part = rank as repaired in 7d5a551), ref_metric_interpolate_node / _between (RAISE, the "location unsuccessful" gate) and '
+    'the back-off loops of ref_smooth_no_geom_edge_improve / _tri_improve / ref_smooth_tet_improve (save guess; per try: '
+    'set xyz, interpolate, RXS, guards, restore the guess only after REF_NOT_FOUND; final roll-back re-interpolating under RXS) - '
+    'with the search outcome (walk / tree) and the acceptance tests as parameters. Proved for ALL outcomes per try, all '
+    'acceptance tests, all numbers of tries: a vertex that enters located on this rank leaves an accepted try j at trial_j '
+    'with cell/bary a donor of THAT position and metric = interp(cell, bary), and leaves a full rejection with the original '
+    'coordinates and a fresh record unless the last re-location itself reports REF_NOT_FOUND from a located guess '
+    '(improve_metricAtPosition_partial: the exact condition of the C as coded); with a serial, complete fall-back that case '
+    'is impossible (improve_metricAtPosition); unconditionally, a vertex that is located after the call has a fresh record '
+    '(improve_located_implies_fresh); the hazard is characterised exactly: an accepted position carries a fresh metric iff '
+    'the vertex ENTERED located on this rank (accepted_fresh_iff_entry_local) - entered with cell = REF_EMPTY or an off-part '
+    'donor it moves and keeps the old metric, still unlocated (improve_unlocated_keeps_metric, improve_offpart_keeps_metric: '
+    'the class of 2d4e510, 7d5a551 and of the seeded late restore of the guess); split insertion yields a fresh record on '
+    'the walk path and on the fall-back path (between_located_fresh, between_fresh - the latter needs part = rank, i.e. '
+    '7d5a551); history lift by induction over any list of improver calls on any vertices and insertions '
+    '(history_located_implies_fresh, history_fresh, history_carries_field); for a log-linear tetrahedral background and '
+    'barycentric donors a fresh vertex stores exactly L(x_v) and exp_m(L(x_v)) (fresh_loglinear, via logCombine_loglinear). '
+    'Tie: harness h_smoothinterp.c (white-box ref_smooth.c / ref_split.c / ref_interp.c with recording wrappers around '
+    'ref_metric_interpolate_node / _between, ref_agents_push / _remove, ref_search_touching; hooks smooth_* begin/end) runs the '
+    'improvers directly and through ref_smooth_pass / ref_adapt_pass / ref_split_pass / ref_collapse_pass on thin strips whose '
+    'trial positions leave the background (REF_NOT_FOUND tries), strips longer than the 215-step walk limit (fall-back in '
+    'ref_interp_locate_between), L / slit / U / comb domains, squares, tet boxes, with tampered donor records (cell = EMPTY, '
+    'donor part 1, pretended ref_mpi_para) and without / with a non-continuous background; refdrv smoothinterp replays the '
+    'model on every record - every intermediate and the final (xyz, cell, part, bary, m, log m) bit for bit, the metric '
+    'recomputed by the kernel of Model/Metric.lean from the dumped background (streams smooth_interp_fn, smooth_interp_run); '
+    'the oracle states metric(v) = exp(L(x_v)) (1e-7) on every record and dump; cli_adapt_strip[_mpi]: `ref adapt` / `refmpi '
+    'adapt` on such strips, every output vertex.')
 
 ASSUMPTIONS = [
     'theorems hold in exact real arithmetic about the model; IEEE rounding is modelled (Float instance, bit-compared), '
@@ -150,4 +181,17 @@ ASSUMPTIONS = [
     '(interpolateDonor; proved equal to the per-vertex path: interpolateDonor_eq_node) and tied by running the real routine '
     'on one rank (interp_field ops); the blind-send exchange itself is C17 and covered here end to end only',
     'Python oracle arithmetic (fractions, 50-digit decimal Jacobi) is trusted',
+    'smoothinterp: the background search enters the bookkeeping theorems only through its outcome (Sound: what a walk / '
+    'the sequential search returns is a donor of the position asked for, an enclosing agent keeps the part it started on; '
+    'Total: serial run whose sequential fall-back finds every position that has a donor) - the walk and the tree themselves '
+    'are C11; the acceptance tests are arbitrary functions (their content is C01/C02/C03/C15)',
+    'smoothinterp: the strong invariant (every vertex fresh) is proved for serial runs; on several ranks an accepted or '
+    'rolled-back vertex may be left unlocated with a stale metric until the next ref_metric_synchronize '
+    '(ref_interp_locate_warm + ref_metric_interpolate, not modelled here): covered end to end by cli_adapt_loglin_mpi and '
+    'cli_adapt_strip_mpi; the ref_mpi_para branches of the model are tied in process only by pretending n = 2 on one rank',
+    'smoothinterp: a vertex located by the fall-back OUTSIDE its donor cell (position outside the background) gets clipped '
+    'weights: the record is "fresh" in the sense of the theorems, but metric = L(x) is not claimed there (the oracle skips '
+    'vertices whose stored weights are not inside)',
+    'smoothinterp: ref_interp_resize, ref_interp_pack, ref_interp_from_part, the meshlink / EGADS siblings of the improvers '
+    '(same loop, different ideal point and guards) and ref_smooth_tet_nso_step are not modelled',
 ]
